@@ -433,6 +433,8 @@ class PlainWorker:
         env = dict(os.environ)
         env["PYTHONPATH"] = VERIF + os.pathsep + env.get("PYTHONPATH", "")
         env["PYTHONDONTWRITEBYTECODE"] = "1"
+        env["NUMBA_CACHE_DIR"] = os.path.join(VERIF, ".numba_cache")  # keep numba's cache=True out of /repo
+        env["NUMBA_THREADING_LAYER"] = "workqueue"  # OpenMP aborts in the per-request forked children
         cmd = [sys.executable, "-m", "symx.plainworker", modname]
         if mutations:
             cmd += ["--mutations", json.dumps(mutations)]
